@@ -275,7 +275,7 @@ class S3TapeCassette(TapeCassette):
         # and when a start date is given we can look for specific folders until today (or end_time)
         if start_date:
             end_date = end_date or datetime.utcnow()
-            days = [(start_date + timedelta(days=i)) for i in range((end_date - start_date).days + 1)]
+            days = [(start_date + timedelta(days=i)) for i in range((end_date.date() - start_date.date()).days + 1)]
             id_prefixes = ['{}/{}/'.format(category, day.strftime(self.DAY_FORMAT)) for day in days]
         else:
             id_prefixes = ['{}/'.format(category)]
